@@ -584,8 +584,8 @@ def run(ctx: Ctx):
     ctx.cov["rule"] = (
         "a case is a sequence of Dataset operations (construction, copy, setters, pad/crop/bin/fourier_resample "
         "in place or copying, indexing) executed on real objects and on the model: corpus sequences, all "
-        "sequences of length 2 (quick) / 3 (thorough) over an instantiated alphabet on 1-5-D seeds of every "
-        "class, and seeded random sequences of length <= 12 generated against the live state (about 8% malformed "
+        "sequences of length 2 (quick) / 3 (thorough: 30 operations on the 3-D seed = 27 000) over an "
+        "instantiated alphabet, every alphabet operation on 1-5-D seeds of every class, and seeded random sequences of length <= 12 generated against the live state (about 8% malformed "
         "arguments); distinct by its operations, non-trivial when at least two operations succeed and at least "
         "two datasets are alive at the end")
     ctx.assumptions += [
@@ -615,31 +615,49 @@ def run(ctx: Ctx):
         nd = check_batch(ctx, "corpus", recs, "corpus")
         ctx.log("corpus: %d sequences, %d disagreements" % (len(recs), nd))
 
-    # 2. bounded-exhaustive
-    depth = ctx.budget(2, 3)
-    alpha = alphabet(full=not ctx.quick)
-    seeds = SEEDS[:2] if ctx.quick else SEEDS[:3]
-    recs = []
-    for sd in seeds:
-        for combo in itertools.product(alpha, repeat=depth):
+    # 2. bounded-exhaustive: every sequence of `depth` alphabet operations after a seed
+    #    quick:    depth 2 over the 30-operation alphabet on the 3-D seed, every 3rd one on the 4-D seed
+    #    thorough: depth 3 over the 30-operation alphabet on the 3-D seed (27 000 sequences) and
+    #              depth 2 over the full 43-operation alphabet on three seeds
+    if ctx.quick:
+        plans = [(2, alphabet(False), SEEDS[0], 1), (2, alphabet(False), SEEDS[1], 3)]
+    else:
+        plans = [(3, alphabet(False), SEEDS[0], 1)] + [(2, alphabet(True), sd, 1) for sd in SEEDS[:3]]
+    n_exh = nd = 0
+    for depth, alpha, sd, stride in plans:
+        recs = []
+        for ci, combo in enumerate(itertools.product(alpha, repeat=depth)):
+            if ci % stride:
+                continue
             rec = run_impl(fixed([sd]) + list(combo))
             account(ctx, rec, "exhaustive")
             report_oracle(ctx, rec, "exhaustive depth %d" % depth)
             recs.append(rec)
-    # every alphabet entry once on every seed (all dimensionalities)
+            if len(recs) >= 3000:
+                nd += check_batch(ctx, "exh", recs, "exhaustive")
+                n_exh += len(recs)
+                recs = []
+        if recs:
+            nd += check_batch(ctx, "exh", recs, "exhaustive")
+            n_exh += len(recs)
+            ctx.sample({"kind": "exhaustive depth %d" % depth, "ops": [M.op_str(o) for o in recs[len(recs) // 3]["ops"]]})
+        ctx.dist("exhaustive/depth%d_alphabet%d" % (depth, len(alpha)), 1)
+    # every alphabet entry once on every seed (all dimensionalities 1..5, every class)
+    recs = []
     for sd in SEEDS:
         for a in alphabet(full=True):
             rec = run_impl(fixed([sd]) + [a])
             account(ctx, rec, "exhaustive")
             report_oracle(ctx, rec, "alphabet")
             recs.append(rec)
-    nd = check_batch(ctx, "exh", recs, "exhaustive")
-    ctx.log("bounded-exhaustive depth %d over %d operations x %d seeds: %d sequences, %d disagreements" % (
-        depth, len(alpha), len(seeds), len(recs), nd))
-    ctx.sample({"kind": "exhaustive", "ops": [M.op_str(o) for o in recs[len(recs) // 3]["ops"]]})
+    nd += check_batch(ctx, "alpha", recs, "exhaustive")
+    n_exh += len(recs)
+    ctx.log("bounded-exhaustive (%s): %d sequences, %d disagreements" % (
+        ", ".join("depth %d x %d ops%s" % (d, len(a), "" if st == 1 else " (every %d.)" % st) for d, a, _, st in plans),
+        n_exh, nd))
 
     # 3. random histories
-    nseq = ctx.budget(260, 6000)
+    nseq = ctx.budget(160, 5000)
     recs = []
     for i in range(nseq):
         depth_r = r.choice([12, 12, 12, 8, 5])
